@@ -159,4 +159,63 @@ example : encode [.cap .s, .lit 45, .cap .f] [] ⟨2023, 11, 14, 11, 0, 0, 7, 0,
 example : encode [.cap .H, .cap .z] [] ⟨2023, 11, 14, 11, 0, 0, 0, 0, 1699959600⟩
     ≠ encode [.cap .H, .cap .z] [] ⟨2023, 11, 14, 12, 0, 0, 0, 3600, 1699959600⟩ := by decide
 
+/-! ### the listed start instant identifies the segment for playback -/
+
+/-- segments sorted by strictly increasing start (distinct files have distinct starts). -/
+def Sorted (l : List (Bytes × Int)) : Prop := l.Pairwise (fun a b => a.2 < b.2)
+
+theorem dropTo_exact (l : List (Bytes × Int)) (hs : Sorted l) (x : Bytes × Int) (hx : x ∈ l) :
+    ∃ r, dropTo x.2 l = x :: r := by
+  induction l with
+  | nil => cases hx
+  | cons a t ih =>
+    cases t with
+    | nil =>
+      have : x = a := by simpa using hx
+      subst this
+      exact ⟨[], rfl⟩
+    | cons b r =>
+      unfold Sorted at hs
+      rw [List.pairwise_cons] at hs
+      have hab : a.2 < b.2 := hs.1 b List.mem_cons_self
+      unfold dropTo
+      by_cases hc : a.2 ≤ x.2 ∧ x.2 < b.2
+      · rw [if_pos hc]
+        rcases List.mem_cons.mp hx with e | hm
+        · exact ⟨b :: r, by rw [e]⟩
+        · exfalso
+          rcases List.mem_cons.mp hm with e | hm'
+          · rw [e] at hc; omega
+          · have h1 := (List.pairwise_cons.mp hs.2).1 x hm'
+            omega
+      · rw [if_neg hc]
+        have hm : x ∈ b :: r := by
+          rcases List.mem_cons.mp hx with e | hm
+          · exfalso; apply hc; rw [e]; omega
+          · exact hm
+        exact ih hs.2 hm
+
+/-- **`FindSegments` with the start bound set to the listed start of a segment returns that segment
+first** (so playback `/get` and `/list?start=` address the segment the listings mean), for every sorted
+list of recognised segments. -/
+theorem selectFrom_exact (l : List (Bytes × Int)) (hs : Sorted l) (x : Bytes × Int) (hx : x ∈ l) :
+    ∃ r, selectFrom l x.2 = some (x :: r) := by
+  cases l with
+  | nil => cases hx
+  | cons a t =>
+    have hle : a.2 ≤ x.2 := by
+      rcases List.mem_cons.mp hx with e | hm
+      · rw [e]; omega
+      · unfold Sorted at hs
+        have := (List.pairwise_cons.mp hs).1 x hm
+        omega
+    obtain ⟨r, hr⟩ := dropTo_exact (a :: t) hs x hx
+    unfold selectFrom
+    by_cases hlt : x.2 < a.2
+    · omega
+    · simp only [hlt, if_false, hr]
+      cases r with
+      | nil => simp
+      | cons y ys => exact ⟨y :: ys, rfl⟩
+
 end MtxVerif.C31
